@@ -53,7 +53,8 @@ func (r *Recorder) BuildReport(now time.Time, maxSize int) *rtcp.CCFeedbackRepor
 		return report
 	}
 	maxReportBlocks := max((maxSize-12-(8*streamCount))/2, 0)
-	maxReportBlocksPerStream := maxReportBlocks / streamCount
+	// an odd number of metric blocks is padded to a multiple of four bytes: budget whole pairs only
+	maxReportBlocksPerStream := (maxReportBlocks / streamCount) &^ 1
 
 	for _, log := range r.streams {
 		block := log.metricsAfter(now, int64(maxReportBlocksPerStream))
